@@ -95,6 +95,6 @@ theorem heap_not_linear_witness :
     (heapAtEnd (nest 12 (flatSeq 8))).map (fun h => decide (h > 4 * (34 + 34))) = some true ∧
     (itemsOf (nest 48 (flatSeq 8))).length = 106 ∧
     (heapAtEnd (nest 48 (flatSeq 8))).map (fun h => decide (h > 13 * (106 + 106))) = some true := by
-  decide
+  decide +kernel
 
 end SaphyrVerif.Props.C08
